@@ -47,6 +47,9 @@ Comm(m, q, p) ==
     [] m.k = "unit" -> RMul(m.a, RAbs(q))
     [] m.k = "tier" -> RMax(m.a, RMul(m.b, RAbs(q)))
     [] m.k = "prop" -> RMul(m.a, RMul(RAbs(q), p))
+    \* schedules that treat the two sides of a trade differently: a levy on sales, a duty on purchases
+    [] m.k = "sell" -> IF RSign(q) = -1 THEN RMul(m.a, RMul(RAbs(q), p)) ELSE Zero
+    [] m.k = "buy"  -> IF RSign(q) = 1 THEN RMul(m.a, RMul(RAbs(q), p)) ELSE Zero
     [] OTHER        -> Zero
 
 (***************************************************************************)
